@@ -17,6 +17,7 @@ mod kbiso;
 mod sweep;
 mod tablecheck;
 mod framepairs;
+mod evseq;
 use gen_keys::{key_index, ALL_KEYS};
 
 pub fn guard<T>(f: impl FnOnce() -> T) -> Option<T> {
@@ -794,6 +795,7 @@ fn main() {
         ("replay", Some("kbd")) => kbiso::replay(&args[3]),
         ("replay", _) => replay(&args[2..]),
         ("kbiso", _) => kbiso::main(&args[2..]),
+        ("evseq", _) => evseq::main(&args[2..]),
         ("framepairs", _) => framepairs::main(&args[2..]),
         ("tablecheck", _) => tablecheck::main(&args[2..]),
         ("findpanic", _) => {
